@@ -27,7 +27,7 @@ def coverage(ctx):
     cov = {}
     for s, (cname, fn) in {9: ("dat_ummulqura", "dat_ummulqura.c"), 10: ("dat_diyanet", "dat_diyanet.c")}.items():
         vals = [gen_mod.c_int(x) for x in gen_mod.c_array(gen_mod.read(ctx.src, fn), cname)]
-        cov[s] = (vals[2] + MJD0, vals[-1] + MJD0, vals[0])     # ordinals [first, last), SM
+        cov[s] = (vals[2] + MJD0, vals[-1] + MJD0, vals[0], len(vals) - 2)     # ordinals [first, last), SM, number of entries
     return cov
 
 
@@ -84,9 +84,13 @@ def run(ctx):
     for s in (9, 10):
         sm = cov[s][2]
         y0 = sm // 12 + 1
-        for (y, m, d) in [(y0 - 1, 12, 1), (y0 - 1, 12, 29), (y0 - 60, 1, 1), (1, 1, 1), (y0 + 400, 1, 1), (4000, 6, 6)]:
+        # ... among them the month the table's last entry stands for: that entry is where the table ends
+        mend = sm + cov[s][3] - 1
+        ye, me = mend // 12 + 1, mend % 12 + 1
+        for (y, m, d) in [(y0 - 1, 12, 1), (y0 - 1, 12, 29), (y0 - 60, 1, 1), (1, 1, 1), (y0 + 400, 1, 1), (4000, 6, 6), (ye, me, 1), (ye, me, 15), (ye, me, 31)]:
             ops2.append("c.conv %d %d %d %d 0" % (s, y, m, d)); ref2.append(("outside", (y, m, d), s))
             ops2.append("c.ndim %d %d %d" % (s, y, m)); ref2.append(("outside_ndim", (y, m, d), s))
+            ops2.append("c.wday %d %d %d %d" % (s, y, m, d)); ref2.append(("outside_wday", (y, m, d), s))
     for l in common.load_corpus("C15"):
         ops2.append(l); ref2.append(None)
     out2, st2, err2 = ctx.impl(exe, ops2)
@@ -125,6 +129,9 @@ def run(ctx):
         elif kind == "outside":
             if a != "nul":
                 fail(ops2[i], "scale %d date %s lies outside the table but converts to %s" % (s, o, a))
+        elif kind == "outside_wday":
+            if a != "0":
+                fail(ops2[i], "scale %d date %s lies outside the table but has the weekday %s" % (s, o, a))
         elif kind == "outside_ndim":
             if a != "0":
                 fail(ops2[i], "scale %d month %s lies outside the table but has length %s" % (s, o, a))
